@@ -127,6 +127,13 @@ func (s *Service) Handshake(ctx context.Context, stream p2p.Stream, peerMultiadd
 		return nil, fmt.Errorf("read synack message: %w", err)
 	}
 
+	if resp.Syn == nil {
+		return nil, ErrInvalidSyn
+	}
+	if resp.Ack == nil {
+		return nil, ErrInvalidAck
+	}
+
 	observedUnderlay, err := ma.NewMultiaddrBytes(resp.Syn.ObservedUnderlay)
 	if err != nil {
 		return nil, ErrInvalidSyn
@@ -271,6 +278,9 @@ func (s *Service) Handle(ctx context.Context, stream p2p.Stream, remoteMultiaddr
 	if ack.NetworkID != s.networkID {
 		return nil, ErrNetworkIDIncompatible
 	}
+	if ack.Address == nil {
+		return nil, ErrInvalidAck
+	}
 
 	mode, err := aurora.NewModelFromBytes(ack.NodeMode)
 	if err != nil {
@@ -326,6 +336,9 @@ func buildFullMA(addr ma.Multiaddr, peerID libp2ppeer.ID) (ma.Multiaddr, error) 
 }
 
 func (s *Service) parseCheckAck(ack *pb.Ack) (*aurora.Address, error) {
+	if ack == nil || ack.Address == nil {
+		return nil, ErrInvalidAck
+	}
 	bzzAddress, err := aurora.ParseAddress(ack.Address.Underlay, ack.Address.Overlay, ack.Address.Signature, s.networkID)
 	if err != nil {
 		return nil, ErrInvalidAck
